@@ -15,11 +15,11 @@
 
 enum FaultKind { FK_NONE = 0, FK_NAN_VALUE, FK_PINF_VALUE, FK_NINF_VALUE, FK_ZERO_DERIVATIVE, FK_NAN_DERIVATIVE, FK_INF_DERIVATIVE, FK_COUNT };
 static const char* fk_name[] = {"none", "NaN-value", "+inf-value", "-inf-value", "zero-derivative", "NaN-derivative", "+inf-derivative"};
-enum { NFUN = 8, NBRACKET = 5, NX0 = 3, NCRIT = 2, NREGION = 3 };
+enum { NFUN = 8, NBRACKET = 6, NX0 = 3, NCRIT = 2, NREGION = 3 };
 static const char* fun_name[] = {"x-1", "x^3-2x-5", "atan(x)", "exp(x)-2", "x^2-4", "sign(x)sqrt|x|", "1e-310*(x-1) on a bracket of width 3e9", "tanh(1e3(x-0.1))+1e-16 (root within one ulp of the upper bound 0.1)"};
 // the last two exercise the bracket arithmetic itself: a secant slope that overflows (subnormal values, huge width) and a secant root that
 // rounds just above the upper bound
-static const char* bracket_name[] = {"none", "valid", "valid-reversed", "invalid-same-sign", "one-sided"};
+static const char* bracket_name[] = {"none", "valid", "valid-reversed", "invalid-same-sign", "one-sided", "valid-whole-range[-DBL_MAX,DBL_MAX]"};
 static const char* region_name[] = {"none", "NaN-right-of-root", "NaN-left-of-bracket-middle"};
 
 struct Case { int fun, bracket, x0, crit, im, region, kind; unsigned mask; };
@@ -49,6 +49,7 @@ static void bracket_of(int fun, int b, double& lo, double& hi) {
     case 2: lo = H[fun]; hi = L[fun]; break;
     case 3: lo = root_of(fun) + 0.5; hi = root_of(fun) + 3; break;   // same sign (right of the root; all functions increase there)
     case 4: lo = L[fun]; hi = nan; break;
+    case 5: lo = -std::numeric_limits<double>::max(); hi = std::numeric_limits<double>::max(); break;   // "unbounded" passed as the widest finite bracket
     default: lo = nan; hi = nan;
   }
 }
@@ -71,7 +72,7 @@ static Verdict run(const Case& cs) {
   auto f = [&](const double x) {
     double val, der; eval(cs.fun, x, val, der);
     const size_t k = log.f.size(); bool faulted = false;
-    if (k > size_t(3 + 2 * cs.im) + 16) throw Runaway{};
+    if (k > size_t(3 + 2 * std::max(cs.im, 0)) + 16) throw Runaway{};
     if (cs.region == 1 && x > root_of(cs.fun) + 0.75) { val = nan; faulted = true; }
     if (cs.region == 2 && x < mid - 0.25 && std::isfinite(mid)) { val = nan; faulted = true; }
     if (k < 32 && ((cs.mask >> k) & 1u)) {
@@ -98,8 +99,9 @@ static Verdict run(const Case& cs) {
   for (auto& e : log.f) if (e.faulted) v.fault_hit = true;
   auto fail = [&v](const char* cl, const std::string& d) { if (v.cls == "ok") { v.cls = cl; v.detail = d; } };
   // B: iteration budget
-  if (v.iters > cs.im) fail("too-many-iterations", "returned iteration count " + std::to_string(v.iters) + " > im=" + std::to_string(cs.im));
-  if (v.fcalls > size_t(3 + 2 * cs.im)) fail("too-many-function-calls", std::to_string(v.fcalls) + " evaluations for im=" + std::to_string(cs.im));
+  const int allowed = std::max(cs.im, 0);   // a negative budget (signed index type, remainder of a shared budget) allows nothing
+  if (v.iters > allowed) fail("too-many-iterations", "returned iteration count " + std::to_string(v.iters) + " > allowed " + std::to_string(allowed) + " (im=" + std::to_string(cs.im) + ")");
+  if (v.fcalls > size_t(3 + 2 * allowed)) fail("too-many-function-calls", std::to_string(v.fcalls) + " evaluations for im=" + std::to_string(cs.im));
   // A: soundness of a convergence claim
   if (v.converged) {
     if (!std::isfinite(v.x)) fail("converged-non-finite-root", "returned root is not finite");
@@ -115,7 +117,7 @@ static Verdict run(const Case& cs) {
     }
   }
   // C: bracket confinement (valid sign-changing bracket whose ends were evaluated without fault)
-  if ((cs.bracket == 1 || cs.bracket == 2) && log.f.size() >= 3) {
+  if ((cs.bracket == 1 || cs.bracket == 2 || cs.bracket == 5) && log.f.size() >= 3) {
     const FCall &e1 = log.f[1], &e2 = log.f[2];
     const bool valid = !e1.faulted && !e2.faulted && std::isfinite(e1.v) && std::isfinite(e2.v) && ((e1.v < 0 && e2.v > 0) || (e1.v > 0 && e2.v < 0));
     if (valid) {
@@ -142,18 +144,18 @@ int main(int argc, char** argv) {
     Verdict v = run(c); print(v.cls.c_str(), c, v); return 0;
   }
   int tier = 0; for (int i = 1; i < argc; ++i) if (!strcmp(argv[i], "--tier") && i + 1 < argc) tier = atoi(argv[++i]);
-  static const int ims_q[] = {0, 1, 2, 3, 5, 10, 30}, ims_t[] = {0, 1, 2, 3, 4, 5, 7, 10, 15, 30};
-  const int* ims = tier ? ims_t : ims_q; const int nims = tier ? 10 : 7;
+  static const int ims_q[] = {-6, -1, 0, 1, 2, 3, 5, 10, 30}, ims_t[] = {-6, -1, 0, 1, 2, 3, 4, 5, 7, 10, 15, 30};
+  const int* ims = tier ? ims_t : ims_q; const int nims = tier ? 12 : 9;
   long cases = 0, fault_reached = 0, converged = 0, violations = 0, samples = 0, confined_checked = 0; long by_kind[FK_COUNT] = {0};
   for (int fun = 0; fun < NFUN; ++fun) for (int b = 0; b < NBRACKET; ++b) for (int x0 = 0; x0 < NX0; ++x0) for (int cr = 0; cr < NCRIT; ++cr) for (int ii = 0; ii < nims; ++ii) for (int reg = 0; reg < NREGION; ++reg) {
-    const int im = ims[ii], npos = std::min(3 + 2 * im, tier ? 11 : 8), maxf = tier ? 3 : 2;
+    const int im = ims[ii], npos = std::min(3 + 2 * std::max(im, 0), tier ? 11 : 8), maxf = tier ? 3 : 2;
     for (unsigned mask = 0; mask < (1u << npos); ++mask) {
       if (__builtin_popcount(mask) > maxf) continue;
       for (int kind = (mask ? 1 : 0); kind < (mask ? int(FK_COUNT) : 1); ++kind) {
         Case c{fun, b, x0, cr, im, reg, kind, mask};
         Verdict v = run(c);
         ++cases; if (v.fault_hit) { ++fault_reached; by_kind[kind]++; } if (v.converged) ++converged;
-        if ((b == 1 || b == 2)) ++confined_checked;
+        if (b == 1 || b == 2 || b == 5) ++confined_checked;
         if (v.cls != "ok") { ++violations; if (violations <= 400) print(v.cls.c_str(), c, v); }
         else if ((cases % 50021) == 0 && samples < 6) { ++samples; print("sample", c, v); }
       }
